@@ -137,8 +137,10 @@ def r3_error_condition(a, tier):
         rep.fail(rl.qualname, 'no-guard', 'rule_call evaluates the rule body before installing the left-recursion guard memo: an '
                  'undetected left-recursive rule recurses without bound', rl.loc)
     g = a.p.func('tatsu.contexts.engine.ParserEngine.set_left_recursion_guard')
-    ok = any(isinstance(n, ast.Call) and dotted(n.func) == 'self.memoize' for n in walk_no_defs(g.node)) and any(
-        'FailedLeftRecursion' in norm(n) for n in walk_no_defs(g.node) if isinstance(n, ast.Call))
+    stores_guard = any(isinstance(n, ast.Call) and dotted(n.func) == 'self.memoize' for n in walk_no_defs(g.node)) or any(
+        isinstance(n, ast.Assign) and isinstance(n.targets[0], ast.Subscript) and norm(n.targets[0].value) == 'self._memos'
+        for n in walk_no_defs(g.node))  # either way of storing the guard serves C16 (the gate itself is C04.R2's business)
+    ok = stores_guard and any('FailedLeftRecursion' in norm(n) for n in walk_no_defs(g.node) if isinstance(n, ast.Call))
     rep.add({'guard_memoizes_FailedLeftRecursion': ok})
     if not ok:
         rep.fail(g.qualname, 'guard-shape', 'the guard does not memoize a FailedLeftRecursion for the key', g.loc)
